@@ -1,8 +1,8 @@
 """shared harness specs over writer.c string kernels (used by C01, C11, C16)"""
-def strings(name, mode, N, tier, desc, extra_defs=None):
+def strings(name, mode, N, tier, desc, extra_defs=None, functional=True):
     d = dict(MODE=mode, N=N, DS_CAP=N + 4)
     d.update(extra_defs or {})
     return dict(name=name, src='w/strings.c', defs=d,
                 units=['repo:writer.c', 'repo:char.c', 'common/ds_model.c'],
-                unwind=N + 5, timeout=900 if tier == 'quick' else 3000, mem_gb=6,
+                unwind=N + 5, timeout=900 if tier == 'quick' else 3000, mem_gb=6, functional=functional,
                 bounds='every NUL-terminated string of <= %d bytes (all byte values)' % N, desc=desc)
